@@ -55,6 +55,39 @@ CLAIMED = {
     },
 }
 
+CLAIMED.update({
+    "C13": {
+        "text": "validate is modelled as returning the indices of the failing examples; validate_ok_iff proves it succeeds exactly "
+                "when every true positive matches and no true negative does, with matches()'s own verdicts, for every rule "
+                "(optimised or not); validate_names_failing that it names exactly the failing examples; validate_no_panic / "
+                "validate_malformed_example that a non-mapping example is an error entry, never a panic (fix D2). Random rules with "
+                "mixed example lists are run on the crate: the harness re-runs matches() on each example and compares with "
+                "validate()'s result and message, for the unoptimised and six optimised variants.",
+        "note": TB + "The crate returns one joined message; that it names each failing example is checked by counting the per-example phrases in it.",
+        "technique": "Coq proof (induction over the example lists) + differential runs with an in-harness cross-check of validate() against matches()",
+    },
+    "C16": {
+        "text": "agree_on_keys proves, by induction over expressions (matrix forms included), that the three-valued result "
+                "depends on the document only through the keys the expression names; reads_only_rule_keys that a document which "
+                "PANICS on every other key is indistinguishable from the plain one (so no other key, in particular no synthetic "
+                "matrix key, is ever presented to the user's document); unaddressed_fields_irrelevant the corollary for "
+                "document pairs. A recording Document on the crate: key sets must be within the rule's keys and equal the "
+                "model's; paired documents differing only in unaddressed fields must agree.",
+        "note": TB + "Keys of the rule are computed by the generator from the YAML independently of crate and model. Runs in which matches() panics (known finding D19 of C01/C03) are not evaluated here.",
+        "technique": "Coq proof (nested induction over expressions; guard-document argument) + recording-document differential runs",
+    },
+    "C17": {
+        "text": "or_perm / of_perm prove that or and the counting quantifiers are invariant under every permutation of their operand "
+                "results (three-valued), and_perm_truth / binary_comm that reordering never changes whether a conjunction is true, "
+                "group_or_perm / group_and_perm_truth the same for groups of expressions, positive_context_truth that positions not "
+                "under negation or none-of are monotone, so reordering inside them cannot change the rule's verdict. Random rules "
+                "without negation/none-of are compared with shuffled variants (all lists, mappings, sequences, condition operands; "
+                "exhaustive permutations of one list up to 4 members) on the crate.",
+        "note": TB + "YAML-level permutations (members of key lists, entries of mappings) are covered by the differential runs; the theorems are stated on operand vectors and expression groups.",
+        "technique": "Coq proof (Permutation induction over closed forms of the folds; context induction) + differential permutation runs",
+    },
+})
+
 DEFAULT_REASON = ("not claimed yet in this commit: the Coq model covers it (DESIGN.md section 7) but its property theorems "
                   "and correspondence check are still being built; nothing is inapplicable in principle")
 NOT_YET = {}
